@@ -100,6 +100,12 @@ def insertUniq (a : Int) : List Int → List Int
 /-- the index list of `getPatternInRouteResult`: the distinct placements, then `sort.Ints` -/
 def sortDedup (l : List Int) : List Int := l.foldr insertUniq []
 
+/-- `indexValueMap[i]` of `getPatternInRouteResult` for `k IN (…)` on the sharding
+    column: the listed values placed in table `i`, in statement order.
+    `PatternInExprDecorator.Restore` writes `k IN (these)` for table `i`, or `1=0`
+    when there is none. -/
+def inValuesFor (ls : List Lit) (i : Int) : List Lit := ls.filter fun l => l.place == some i
+
 /-- `adjustShardIndex` -/
 def adjust (l : Lit) (i : Int) : Int := if l.eqStart then i - 1 else i
 
